@@ -156,6 +156,11 @@ CONSTEVAL = [
     ("asin", "fixed_t r = asin(as_fixed({a}));", 1), ("acos", "fixed_t r = acos(as_fixed({a}));", 1),
     ("atan", "fixed_t r = atan(as_fixed({a}));", 1), ("atan2", "fixed_t r = atan2(as_fixed({a}), as_fixed({b}));", 2),
     ("shl", "fixed_t r = as_fixed({a}) << 3;", 1), ("conv", "fixed_t r = fixed_t(static_cast<double>(as_fixed({a})));", 1),
+    # floating operands outside the representable range: NaN, +-infinity, huge (defined: they convert to the fixed NaN, C05)
+    ("conv_special", "fixed_t r = fixed_t( ({a}) == 0 ? std::numeric_limits<double>::quiet_NaN() : ({a}) < 0 ? "
+                     "-std::numeric_limits<double>::infinity() : ({a}) < 70000 ? std::numeric_limits<double>::infinity() : 1e300 );", 1),
+    ("conv_special_f", "fixed_t r = fixed_t( ({a}) == 0 ? std::numeric_limits<float>::quiet_NaN() : ({a}) < 0 ? "
+                       "-std::numeric_limits<float>::infinity() : std::numeric_limits<float>::max() );", 1),
 ]
 
 
@@ -178,7 +183,7 @@ def consteval_check(R):
             kinds.append(name)
             argv.append(a)
             n += 1
-    head = "#include <fixedmath/fixed_math.hpp>\n#include <cstdio>\n#include <cstdint>\nusing namespace fixedmath;\n" \
+    head = "#include <fixedmath/fixed_math.hpp>\n#include <cstdio>\n#include <cstdint>\n#include <limits>\nusing namespace fixedmath;\n" \
            "static_assert(sqrt_constexpr_available);\n" \
            "__attribute__((noinline)) int64_t opaque(long long v) { volatile long long x = v; return x; }\n" + "\n".join(lines)
 
@@ -186,8 +191,11 @@ def consteval_check(R):
         if same_algo or kinds[i] not in SQRT_DEP:
             return " if( rt_%d() != ce_%d ) { std::printf(\"MISMATCH %d %s\\n\"); bad++; }" % (i, i, i, kinds[i])
         if kinds[i] == "sqrt":
+            if argv[i] < 0:
+                # negative argument: both algorithms must give the NaN sentinel, bit for bit
+                return " if( rt_%d() != ce_%d ) { std::printf(\"MISMATCH %d sqrt\\n\"); bad++; }" % (i, i, i)
             if not (0 <= argv[i] < (1 << 48)):
-                return ""  # outside sqrt's domain the abacus guard returns NaN while std::sqrt still produces a value
+                return ""  # beyond sqrt's domain the abacus guard returns NaN while std::sqrt still produces a value
             return " { int64_t d = rt_%d() - ce_%d; if( d > 1 || d < -1 ) { std::printf(\"MISMATCH %d sqrt\\n\"); bad++; } }" % (i, i, i)
         return ""      # hypot / asin / acos at run time use the other square-root algorithm under c++20: not compared
 
